@@ -401,6 +401,22 @@ def check_entry(entry):
                 out.append(_viol(["C02", "C03"], "real_input_wrong", api, "float64 input: result differs from the matrix action (imaginary part dropped or mixed)"))
             if not np.array_equal(xr, xr0):
                 out.append(_viol(["C02"], "mutated", api, "real input mutated"))
+            # a FRESH operator object applied to a real array first and to a complex one afterwards (and a complex64 one): nothing
+            # an application leaves behind in the object (buffers, dtypes, shapes) may influence the next application
+            try:
+                A2 = linop_build.Builder(sp).build(api)
+                try:
+                    A2(xr.copy())
+                except Exception:
+                    pass  # an exception for real-typed input is not a wrong answer (see real_input_wrong above)
+                y2 = np.asarray(A2(x.copy())).ravel()
+                if not np.allclose(y2, M @ x.ravel(), **tol):
+                    out.append(_viol(["C02"], "history_dependent", api, "a fresh operator applied to a real array and then to a complex one: the second result differs from the matrix action (state kept from the first application)"))
+                y3 = np.asarray(A2(x.astype(np.complex64))).ravel()
+                if not np.allclose(y3, M @ x.ravel(), atol=1e-4 * max(1.0, float(np.abs(M @ x.ravel()).max())), rtol=1e-4):
+                    out.append(_viol(["C02"], "history_dependent", api, "the same operator applied to a complex64 array afterwards differs from the matrix action"))
+            except Exception as e:
+                out.append(_viol(["C02"], "reapply_raises", api, "application of a fresh operator to real then complex input raised %r" % (e,)))
             # the same values in other memory layouts (Fortran order, strided view into a larger buffer): same result, inputs untouched
             if n > 1:
                 xf = np.asfortranarray(x)
